@@ -706,6 +706,11 @@ any receiver slice value with nil.
 func (r Stack) Replace(x any, idx int) (ok bool) {
 	if r.IsInit() && x != nil {
 		if !r.getState(ronly) {
+			// the worker takes no lock of its own (Reveal
+			// calls it while holding the lock), so the
+			// lock is taken here
+			r.stack.lock()
+			defer r.stack.unlock()
 			ok = r.stack.replace(x, idx)
 		}
 	}
